@@ -1,7 +1,7 @@
 (* Properties_C12.v — linear solvers, inverses and factorisations. *)
 From Coq Require Import Floats.
 From mathcomp Require Import all_ssreflect all_algebra.
-From LS Require Import NumOps RcfOps F64Ops Kernels Algebra GJ Det DetLink Lse LseSpec GjExec.
+From LS Require Import NumOps RcfOps F64Ops Kernels Algebra GJ Det DetLink Lse LseSpec GjExec GjTotal.
 Set Implicit Arguments. Unset Strict Implicit. Unset Printing Implicit Defensive.
 Import Order.TTheory GRing.Theory Num.Theory.
 Local Open Scope ring_scope.
@@ -29,6 +29,15 @@ Theorem C12_executable_inverse (R : rcfType) n (M : seq (seq R)) : RcfOps.wf n n
   (forall i, (i < n)%N -> pivot_of n (state n M i) i != 0) ->
   RcfOps.mx_of n n (gj_inverse M) *m RcfOps.mx_of n n M = 1%:M.
 Proof. exact: gj_inverse_mx. Qed.
+(* ... and for EVERY invertible matrix of every size no pivot vanishes (the pivot search returns a row of largest modulus; a zero
+   pivot would make the input annihilate a non-zero vector): the executable inversion is total on the property's domain and
+   returns the inverse, including when leading entries are zero and rows must be exchanged *)
+Theorem C12_executable_inverse_pivots (R : rcfType) n (M : seq (seq R)) : RcfOps.wf n n M -> RcfOps.mx_of n n M \in unitmx ->
+  forall i, (i < n)%N -> pivot_of n (state n M i) i != 0.
+Proof. exact: gj_pivots_nonzero. Qed.
+Theorem C12_executable_inverse_total (R : rcfType) n (M : seq (seq R)) : RcfOps.wf n n M -> RcfOps.mx_of n n M \in unitmx ->
+  RcfOps.mx_of n n (gj_inverse M) = invmx (RcfOps.mx_of n n M).
+Proof. exact: gj_inverse_total. Qed.
 (* SolveLSE, the EXECUTABLE model (pre-pass, elimination with partial pivoting, back substitution into the
    caller's vector), over any real closed field and every size n:
    - the pre-pass and the elimination keep the solution set of [A | b], whatever the matrix;
@@ -65,6 +74,8 @@ Proof. by vm_compute. Qed.
 Print Assumptions C12_gauss_jordan_sound.
 Print Assumptions C12_det_laplace.
 Print Assumptions C12_executable_inverse.
+Print Assumptions C12_executable_inverse_pivots.
+Print Assumptions C12_executable_inverse_total.
 Print Assumptions C12_solve_lse_keeps_the_solution_set.
 Print Assumptions C12_solve_lse_solves.
 Print Assumptions C12_solve_lse_ignores_previous_contents.
